@@ -161,6 +161,12 @@ def effect_scripts():
     out.append((pre + 's := $"${next()} ${next()}" + $"${next()} ${next()}"\nprint(s)\n', "sa sbsc sd\n"))
     out.append((pre + 'print($"${next()}${1}")\n', ""))       # a failing slot: the earlier slot has run, nothing is printed
     out.append((pre + 'xs := [$"${next()}", $"${next()}", $"${next()}"]\nprint(xs == ["sa", "sb", "sc"])\n', "true\n"))
+    # nested literals sit at the same offset inside their slots (a slot is lexed on its own, from 1:1): each is its own
+    out.append(('g := "héllo"\nn := "wörld"\nprint($"${ $"${g}" }, ${ $"${n}" }!")\n', "héllo, wörld!\n"))
+    out.append(('fn tag(t) { r := "<" + t + ">"; return r; }\nx := "x"\ny := "y"\nprint($"1: ${ tag($"${x}") }")\nprint($"2: ${ tag($"${y}") }")\n'
+                'print($"3: ${ tag($"${x}") } ${ tag($"${y}") }")\n', "1: <x>\n2: <y>\n3: <x> <y>\n"))
+    out.append(('xs := ["a", "b", "c"]\nfor [i, v] in xs {\n    print($"${v}${ $"${v}${ $"${v}" }" }")\n}\n', "aaa\nbbb\nccc\n"))
+    out.append(('name := "world"\nprint($"\\x41: hello ${name}")\nprint($"\\x41\\x42 ${name} \\x43 ${name}\\x44")\n', "A: hello world\nAB world C worldD\n"))
     return out
 
 
